@@ -20,7 +20,10 @@ Local Open Scope N_scope.
 
 Definition name := bytes.
 
-Inductive entry := EFile (size : N) | EDir.
+(* EFile: a regular file OR a symbolic link to one (os.path.isfile, os.stat, open all follow links, os.remove takes
+   the link away: the code cannot tell them apart);  EDir: a directory;  ELink: a dangling symbolic link
+   (listed by os.scandir, os.path.isfile false; open(..,'wb') through it creates the target) *)
+Inductive entry := EFile (size : N) | EDir | ELink.
 Inductive status := Pending | Finished.
 
 Definition status_eqb (a b : status) : bool :=
@@ -66,8 +69,14 @@ Definition is_file (d : disk_t) (n : name) : bool :=
   match lookup d n with Some (EFile _) => true | _ => false end.
 Definition is_dir (d : disk_t) (n : name) : bool :=
   match lookup d n with Some EDir => true | _ => false end.
-(* { item.name for item in os.scandir(blob_dir) if is_valid_blobhash(item.name) }  (directories included) *)
-Definition listed (d : disk_t) : list name := map fst (filter (fun p => valid_name (fst p)) d).
+(* { item.name for item in os.scandir(blob_dir) if is_valid_blobhash(item.name) and item.is_file() }
+   DirEntry.is_file() follows symlinks: regular files and links to regular files, NOT directories, NOT dangling
+   links (repaired in 8ca445d).  Written with the directory's own lookup so that no uniqueness assumption on the
+   entry list is needed; with unique names it is the plain filter. *)
+Definition listed (d : disk_t) : list name :=
+  map fst (filter (fun p => valid_name (fst p) && is_file d (fst p)) d).
+(* the scan before the repair: every entry whose name is a blob hash, whatever it is *)
+Definition listed_all (d : disk_t) : list name := map fst (filter (fun p => valid_name (fst p)) d).
 
 (* ---------- blob table ---------- *)
 Definition db_t := list (name * status).
@@ -135,14 +144,24 @@ Definition setup (s : state) : state :=
   let (db2, cache2) := ensure_completed (disk s) rest db1 (cache s) in
   mkState (disk s) db2 completed1 cache2 true (save s) (marked s).
 
+(* BlobManager.setup as it was BEFORE 8ca445d (scan = listed_all); kept only for C18_old_scan_refuted *)
+Definition setup_old (s : state) : state :=
+  let files := listed_all (disk s) in
+  let (db1, to_add) := sync_missing (db s) files in
+  let completed1 := fold_left (fun acc h => set_add h acc) to_add (completed s) in
+  let rest := filter (fun f => negb (mem f to_add)) files in
+  let (db2, cache2) := ensure_completed (disk s) rest db1 (cache s) in
+  mkState (disk s) db2 completed1 cache2 true (save s) (marked s).
+
 (* the process is gone: everything in memory is lost, disk and database stay *)
 Definition wipe (s : state) (al : bool) : state := mkState (disk s) (db s) [] [] al (save s) (marked s).
 
 (* a (re)start of the blob manager: fresh BlobManager (or stop() on the old one), then setup() *)
 Definition restart (s : state) : state := setup (wipe s true).
+Definition restart_old (s : state) : state := setup_old (wipe s true).
 (* the same with config.save_blobs set to b for the new process *)
-Definition restart_with (s : state) (b : bool) : state :=
-  restart (mkState (disk s) (db s) (completed s) (cache s) (alive s) b (marked s)).
+Definition set_save (s : state) (b : bool) : state := mkState (disk s) (db s) (completed s) (cache s) (alive s) b (marked s).
+Definition restart_with (s : state) (b : bool) : state := restart (set_save s b).
 
 (* ---------- operations between restarts ---------- *)
 Inductive result := RDone | RHave | RBusy | RInvalid | RNoLength | RDead | RPrecondition.
@@ -287,6 +306,65 @@ Definition stream_delete (s : state) (hs : list name) (sd : name) : state * resu
   else (mkState (disk s1) (db_delete_all (db s1) (hs ++ [sd])) (completed s1) (cache s1) (alive s1) (save s1)
              (unmark_all (marked s1) (hs ++ [sd])), RDone).
 
+(* ---------- daemon start: BlobManager.setup, then StreamManager.initialize_from_database ----------
+   A managed stream (a file with a claim) is given by its sd hash, the length of its sd blob and its content hashes.
+   Precondition of the tie (kept by the generators): the blob_length column of the stream's rows holds the
+   descriptor's lengths, so that StreamDescriptor.recover reproduces the sd hash whenever all rows are there. *)
+Definition stream_t := (name * N * list name)%type.
+Definition st_sd (st : stream_t) : name := fst (fst st).
+Definition st_len (st : stream_t) : N := snd (fst st).
+Definition st_blobs (st : stream_t) : list name := snd st.
+Definition st_names (st : stream_t) : list name := st_sd st :: st_blobs st.
+
+(* initialize_from_database: `if not self.blob_manager.is_blob_verified(file_info['sd_hash'])` -> to_recover *)
+Definition needs_recovery (s : state) (st : stream_t) : bool := negb (is_blob_verified (disk s) (cache s) (st_sd st)).
+(* StreamDescriptor.recover returns a descriptor only if the rebuilt sd hash matches: every content row present *)
+Definition rows_present (s : state) (st : stream_t) : bool :=
+  forallb (fun h => match db_status (db s) h with Some _ => true | None => false end) (st_blobs st).
+
+(* recover_stream, first half: sd_blob = blob_manager.get_blob(sd_hash) -- always -- and, when the rows are there,
+   descriptor.make_sd_blob(sd_blob): set_length; if not verified: get_blob_writer().write(sd_data) -> file (or
+   buffer) -> verified -> blob_completed.  (A cached unverified BlobFile with a file present would raise; a fresh
+   start never has one.) *)
+Definition recover_sd (s : state) (st : stream_t) : state :=
+  let '(d1, e, c1) := get_blob (save s) (disk s) (cache s) (st_sd st) 0 in
+  let s1 := mkState d1 (db s) (completed s) c1 (alive s) (save s) (marked s) in
+  if negb (rows_present s st) then s1
+  else if snd e then s1
+  else if fst e && is_file d1 (st_sd st) then s1
+  else if fst e then
+    blob_completed (mkState (write_file d1 (st_sd st) (st_len st)) (db s) (completed s)
+                            (set_key c1 (st_sd st) (true, true)) (alive s) (save s) (marked s)) (st_sd st)
+  else
+    buffer_completed (mkState d1 (db s) (completed s) (set_key c1 (st_sd st) (false, true)) (alive s) (save s)
+                              (marked s)) (st_sd st).
+
+(* storage.recover_streams for one restored stream: delete_stream (the rows of content blobs and sd go, with their
+   should_announce flags) then store_stream (all back as 'pending', should_announce=1 on the sd blob) *)
+Definition store_recovered (s : state) (st : stream_t) : state :=
+  let names := st_blobs st ++ [st_sd st] in
+  let db1 := db_delete_all (db s) names in
+  let db2 := fold_left (fun acc h => db_insert_ignore acc h Pending) names db1 in
+  mkState (disk s) db2 (completed s) (cache s) (alive s) (save s) (set_add (st_sd st) (unmark_all (marked s) names)).
+
+(* _load_stream: blob_manager.get_stream_descriptor(sd_hash) -> get_blob(sd_hash) (cached from now on) and, if
+   readable, one read; reading a BlobBuffer consumes it (its verified flag is cleared) *)
+Definition load_stream (s : state) (st : stream_t) : state :=
+  let '(d1, e, c1) := get_blob (save s) (disk s) (cache s) (st_sd st) 0 in
+  let c2 := if negb (fst e) && snd e then set_key c1 (st_sd st) (false, false) else c1 in
+  mkState d1 (db s) (completed s) c2 (alive s) (save s) (marked s).
+
+Definition daemon_start (s : state) (streams : list stream_t) : state :=
+  let s0 := restart s in
+  let to_recover := filter (needs_recovery s0) streams in
+  let restored := filter (rows_present s0) to_recover in
+  let s1 := fold_left recover_sd to_recover s0 in
+  let s2 := fold_left store_recovered restored s1 in
+  let to_check := flat_map st_names restored in
+  let (db3, c3) := ensure_completed (disk s2) to_check (db s2) (cache s2) in
+  let s3 := mkState (disk s2) db3 (completed s2) c3 (alive s2) (save s2) (marked s2) in
+  fold_left load_stream streams s3.
+
 Inductive op :=
 | OComplete (h : name) (len : N)
 | OTouch (h : name) (len : N)
@@ -298,10 +376,14 @@ Inductive op :=
 | OExtFile (n : name) (size : N)          (* behind the daemon's back: create / overwrite a file *)
 | OExtDir (n : name)                      (* behind the daemon's back: create a directory (outside the property) *)
 | OExtRemove (n : name)                   (* behind the daemon's back: remove the entry *)
+| OExtLink (n : name) (target : option N) (* behind the daemon's back: a symlink named n to a regular file of that
+                                             size (a relocated blob), or a dangling one (None); no-op if n exists *)
 | OExtDb (h : name) (st : option status)  (* state injection: force / drop a row (explores arbitrary pre-states) *)
 | OExtMark (h : name)                     (* state injection: should_announce=1 on the row of h, if there is one *)
 | ORestart
-| ORestartSave (b : bool).             (* restart with config.save_blobs = b *)
+| ORestartSave (b : bool)
+| ODaemonStart (b : option bool) (streams : list stream_t).   (* (config.save_blobs := b;) restart followed by the
+                                                                 stream manager's start-up for these streams *)             (* restart with config.save_blobs = b *)
 
 Definition with_disk (s : state) (d : disk_t) : state := mkState d (db s) (completed s) (cache s) (alive s) (save s) (marked s).
 Definition with_db (s : state) (b : db_t) : state := mkState (disk s) b (completed s) (cache s) (alive s) (save s) (marked s).
@@ -311,6 +393,9 @@ Definition step (s : state) (o : op) : state * result :=
   | OExtFile n sz => (if is_dir (disk s) n then s else with_disk s (set_key (disk s) n (EFile sz)), RDone)
   | OExtDir n => (match lookup (disk s) n with None => with_disk s (set_key (disk s) n EDir) | Some _ => s end, RDone)
   | OExtRemove n => (with_disk s (remove_key (disk s) n), RDone)
+  | OExtLink n t => (match lookup (disk s) n with
+                     | None => with_disk s (set_key (disk s) n (match t with Some sz => EFile sz | None => ELink end))
+                     | Some _ => s end, RDone)
   | OExtDb h None => (mkState (disk s) (db_delete (db s) h) (completed s) (cache s) (alive s) (save s)
                               (set_remove h (marked s)), RDone)
   | OExtDb h (Some st) => (with_db s (db_update (db_insert_ignore (db s) h st) h st), RDone)
@@ -319,6 +404,7 @@ Definition step (s : state) (o : op) : state * result :=
                    | None => s end, RDone)
   | ORestart => (restart s, RDone)
   | ORestartSave b => (restart_with s b, RDone)
+  | ODaemonStart b streams => (daemon_start (match b with Some v => set_save s v | None => s end) streams, RDone)
   | _ =>
     if negb (alive s) then (s, RDead) else
     match o with
@@ -339,8 +425,9 @@ Fixpoint run (s : state) (ops : list op) : state :=
   | o :: r => run (fst (step s o)) r
   end.
 
-(* histories the property quantifies over: no directory is planted under a blob-hash name *)
-Definition is_ext_dir (o : op) : bool := match o with OExtDir _ => true | _ => false end.
+(* operations that plant something that is not a (link to a) regular file in the blob directory; the property's
+   theorems no longer need to exclude them (only the auxiliary files_only invariant of the proofs does) *)
+Definition is_ext_dir (o : op) : bool := match o with OExtDir _ | OExtLink _ None => true | _ => false end.
 
 (* SQLiteStorage.get_blobs_to_announce() with every row due (next_announce_time in the past, no single_announce) and
    the limit not reached:
